@@ -8,6 +8,17 @@ call with arguments, ...), the injector adds the smallest declaration/statement 
 
 Abstract programs are the nested tuples documented in splgen.py; sites are addressed by generic paths (index
 sequences into the nested tuples/lists).
+
+Every injector returns `(prog', kind, culprit)` (plus, where the SPL rules themselves imply a second diagnostic,
+a list of further `(kind, culprit)` pairs): `culprit` names the offending construct of prog',
+    ("decl_name", di) | ("param_name", di, i) | ("var_name", di, i)     the declared name (one token)
+    ("texpr", path) | ("ident", path)                                    a type name / variable name (one token)
+    ("stmt", path) | ("expr", path) | ("var", path)                      the whole node
+    ("none",)                                                            no construct (main is missing)
+`inject` keeps the old interface (prog', kind); `inject_full` gives (prog', [(kind, culprit), ...]);
+`culprit_span(prog', culprit)` is the culprit's token span (first, last+1) in `splgen.flatten(prog')` and whether
+the published range is the bare token (`exact`) or the node with the comments in front of it.
+`SYNTAX_INJECTORS` delete one token (`;` after an assignment/call/declaration, `)` of a call or condition).
 """
 import splgen
 
@@ -235,8 +246,10 @@ def map_calls(prog, name, f):
 
 
 def add_stmt(prog, rng, di, s):
+    """(prog', path of the new statement)"""
     d = prog[di]
-    return insert(prog, (di, 4), rng.randrange(0, len(d[4]) + 1), s)
+    i = rng.randrange(0, len(d[4]) + 1)
+    return insert(prog, (di, 4), i, s), (di, 4, i)
 
 
 def int_vars(prog, di):
@@ -284,7 +297,7 @@ def undefined_type(prog, rng):
     if not c:
         return None
     _, path, _, _ = rng.choice(c)
-    return put(prog, path, ("named", fresh(prog, rng))), "UndefinedType"
+    return put(prog, path, ("named", fresh(prog, rng))), "UndefinedType", ("texpr", path)
 
 
 def not_a_type(prog, rng):
@@ -299,14 +312,14 @@ def not_a_type(prog, rng):
         seen = [n for _, n, _ in d[2]] + [n for n, _ in d[3][:role[1]]]
         if seen:
             cands = seen
-    return put(prog, path, ("named", rng.choice(sorted(cands)))), "NotAType"
+    return put(prog, path, ("named", rng.choice(sorted(cands)))), "NotAType", ("texpr", path)
 
 
 def redeclaration_as_type(prog, rng):
     di = rng.randrange(0, len(prog) + 1)
     names = sorted(globals_before(prog, di) - {"main"} - ({"int"} if rng.random() < 0.9 else set()))
     name = rng.choice(names)
-    return insert(prog, (), di, ("type", name, ("named", "int"))), "RedeclarationAsType"
+    return insert(prog, (), di, ("type", name, ("named", "int"))), "RedeclarationAsType", ("decl_name", di)
 
 
 def must_be_a_reference_parameter(prog, rng):
@@ -319,14 +332,15 @@ def must_be_a_reference_parameter(prog, rng):
     if c and rng.random() < 0.8:
         di, i = rng.choice(c)
         r, n, t = prog[di][2][i]
-        return put(prog, (di, 2, i), (False, n, t)), "MustBeAReferenceParameter"
+        return put(prog, (di, 2, i), (False, n, t)), "MustBeAReferenceParameter", ("param_name", di, i)
     # add a procedure with a non-reference array parameter (anonymous or named array type)
     pn, an = fresh(prog, rng), fresh(prog, rng)
     te = ("array", "3", ("named", "int"))
     named = [n for n, t in types_before(prog, len(prog)).items() if isinstance(t, tuple)]
     if named and rng.random() < 0.5:
         te = ("named", rng.choice(named))
-    return list(prog) + [("proc", pn, [(False, an, te)], [], [])], "MustBeAReferenceParameter"
+    return list(prog) + [("proc", pn, [(False, an, te)], [], [])], "MustBeAReferenceParameter", \
+        ("param_name", len(prog), 0)
 
 
 def redeclaration_as_procedure(prog, rng):
@@ -336,7 +350,7 @@ def redeclaration_as_procedure(prog, rng):
     q = fresh(prog, rng)
     body = rng.choice([[], [("assign", ("name", q), ("lit", "1"))]])
     vars_ = [(q, ("named", "int"))] if body else []
-    return insert(prog, (), di, ("proc", name, [], vars_, body)), "RedeclarationAsProcedure"
+    return insert(prog, (), di, ("proc", name, [], vars_, body)), "RedeclarationAsProcedure", ("decl_name", di)
 
 
 def redeclaration_as_parameter(prog, rng):
@@ -344,13 +358,13 @@ def redeclaration_as_parameter(prog, rng):
     if not c:
         pn, an = fresh(prog, rng), fresh(prog, rng)
         return list(prog) + [("proc", pn, [(False, an, ("named", "int")), (False, an, ("named", "int"))], [], [])], \
-            "RedeclarationAsParameter"
+            "RedeclarationAsParameter", ("param_name", len(prog), 1)
     di = rng.choice(c)
     d = prog[di]
     _, n, _ = rng.choice(d[2])
     prog = put(prog, (di, 2), list(d[2]) + [(False, n, ("named", "int"))])
     prog = map_calls(prog, d[1], lambda s: ("call", s[1], list(s[2]) + [("lit", "0")]))
-    return prog, "RedeclarationAsParameter"
+    return prog, "RedeclarationAsParameter", ("param_name", di, len(d[2]))
 
 
 def redeclaration_as_variable(prog, rng):
@@ -358,11 +372,13 @@ def redeclaration_as_variable(prog, rng):
     if not c:
         di = ensure_proc(prog, rng)
         n = fresh(prog, rng)
-        return put(prog, (di, 3), [(n, ("named", "int")), (n, ("named", "int"))]), "RedeclarationAsVariable"
+        return put(prog, (di, 3), [(n, ("named", "int")), (n, ("named", "int"))]), "RedeclarationAsVariable", \
+            ("var_name", di, 1)
     di = rng.choice(c)
     d = prog[di]
     n = rng.choice([x[1] for x in d[2]] + [x[0] for x in d[3]])
-    return put(prog, (di, 3), list(d[3]) + [(n, ("named", "int"))]), "RedeclarationAsVariable"
+    return put(prog, (di, 3), list(d[3]) + [(n, ("named", "int"))]), "RedeclarationAsVariable", \
+        ("var_name", di, len(d[3]))
 
 
 def _rename_main(prog, new):
@@ -376,20 +392,25 @@ def _rename_main(prog, new):
 
 def main_is_missing(prog, rng):
     if rng.random() < 0.5:
-        return _rename_main(prog, fresh(prog, rng)), "MainIsMissing"
+        return _rename_main(prog, fresh(prog, rng)), "MainIsMissing", ("none",)
     # delete main; calls of main (recursion) become empty statements
     out = [d for d in prog if d[1] != "main"]
-    return map_calls(out, "main", lambda s: ("empty",)), "MainIsMissing"
+    return map_calls(out, "main", lambda s: ("empty",)), "MainIsMissing", ("none",)
 
 
 def main_is_not_a_procedure(prog, rng):
+    """`type main = ...`: main is not a procedure, AND (a type named main is never entered) there is no
+    procedure main: SPL's two rules about main are both violated"""
     out = []
+    at = None
     for d in prog:
         if d[1] == "main":
             types = types_before(prog, len(out))
             d = ("type", "main", ("named", rng.choice(sorted(types))))
+            at = len(out)
         out.append(d)
-    return map_calls(out, "main", lambda s: ("empty",)), "MainIsNotAProcedure"
+    return map_calls(out, "main", lambda s: ("empty",)), "MainIsNotAProcedure", ("decl_name", at), \
+        [("MainIsMissing", ("none",))]
 
 
 def main_must_not_have_parameters(prog, rng):
@@ -399,8 +420,9 @@ def main_must_not_have_parameters(prog, rng):
     prog = put(prog, (di, 2), [(is_ref, n, ("named", "int"))])
     if is_ref:
         # calls need a variable argument; drop recursive calls instead
-        return map_calls(prog, "main", lambda s: ("empty",)), "MainMustNotHaveParameters"
-    return map_calls(prog, "main", lambda s: ("call", "main", [("lit", "0")])), "MainMustNotHaveParameters"
+        return map_calls(prog, "main", lambda s: ("empty",)), "MainMustNotHaveParameters", ("decl_name", di)
+    return map_calls(prog, "main", lambda s: ("call", "main", [("lit", "0")])), "MainMustNotHaveParameters", \
+        ("decl_name", di)
 
 
 # --------------------------------------------------------------------------------------------
@@ -410,19 +432,23 @@ def assignment_has_different_types(prog, rng):
     c = [s for s in sites(prog) if s[0] == "stmt" and s[2][0] == "assign"]
     if c and rng.random() < 0.8:
         _, path, s, _ = rng.choice(c)
-        return put(prog, path, ("assign", s[1], ("bin", "<", s[2], ("lit", "1")))), "AssignmentHasDifferentTypes"
+        return put(prog, path, ("assign", s[1], ("bin", "<", s[2], ("lit", "1")))), "AssignmentHasDifferentTypes", \
+            ("stmt", path)
     di = ensure_proc(prog, rng)
     if rng.random() < 0.5:
         prog, a = ensure_array_var(prog, rng, di)
-        return add_stmt(prog, rng, di, ("assign", ("name", a), ("lit", "1"))), "AssignmentHasDifferentTypes"
+        prog, path = add_stmt(prog, rng, di, ("assign", ("name", a), ("lit", "1")))
+        return prog, "AssignmentHasDifferentTypes", ("stmt", path)
     prog, v = ensure_int_var(prog, rng, di)
-    return add_stmt(prog, rng, di, ("assign", ("name", v), bool_expr(rng))), "AssignmentHasDifferentTypes"
+    prog, path = add_stmt(prog, rng, di, ("assign", ("name", v), bool_expr(rng)))
+    return prog, "AssignmentHasDifferentTypes", ("stmt", path)
 
 
 def assignment_requires_integers(prog, rng):
     di = ensure_proc(prog, rng)
     prog, a = ensure_array_var(prog, rng, di)
-    return add_stmt(prog, rng, di, ("assign", ("name", a), ("var", ("name", a)))), "AssignmentRequiresIntegers"
+    prog, path = add_stmt(prog, rng, di, ("assign", ("name", a), ("var", ("name", a))))
+    return prog, "AssignmentRequiresIntegers", ("stmt", path)
 
 
 def _condition(kind, stmt_kind):
@@ -432,11 +458,12 @@ def _condition(kind, stmt_kind):
             _, path, s, _ = rng.choice(c)
             cond = s[1]
             new = rng.choice([cond[2], ("par", cond[3]), ("bin", "+", cond[2], cond[3])])
-            return put(prog, path + (1,), new), kind
+            return put(prog, path + (1,), new), kind, ("expr", path + (1,))
         di = ensure_proc(prog, rng)
         e = ("lit", str(rng.randrange(0, 5)))
         s = ("if", e, ("empty",), None) if stmt_kind == "if" else ("while", e, ("empty",))
-        return add_stmt(prog, rng, di, s), kind
+        prog, path = add_stmt(prog, rng, di, s)
+        return prog, kind, ("expr", path + (1,))
     return inj
 
 
@@ -448,9 +475,10 @@ def undefined_procedure(prog, rng):
     c = [s for s in sites(prog) if s[0] == "stmt" and s[2][0] == "call"]
     if c and rng.random() < 0.7:
         _, path, s, _ = rng.choice(c)
-        return put(prog, path, ("call", fresh(prog, rng), s[2])), "UndefinedProcedure"
+        return put(prog, path, ("call", fresh(prog, rng), s[2])), "UndefinedProcedure", ("stmt", path)
     di = ensure_proc(prog, rng)
-    return add_stmt(prog, rng, di, ("call", fresh(prog, rng), [])), "UndefinedProcedure"
+    prog, path = add_stmt(prog, rng, di, ("call", fresh(prog, rng), []))
+    return prog, "UndefinedProcedure", ("stmt", path)
 
 
 def call_of_none_procedure(prog, rng):
@@ -461,8 +489,9 @@ def call_of_none_procedure(prog, rng):
     c = [s for s in sites(prog) if s[0] == "stmt" and s[2][0] == "call" and s[3][0] == di]
     if c and rng.random() < 0.6:
         _, path, s, _ = rng.choice(c)
-        return put(prog, path, ("call", name, s[2])), "CallOfNoneProcedure"
-    return add_stmt(prog, rng, di, ("call", name, [])), "CallOfNoneProcedure"
+        return put(prog, path, ("call", name, s[2])), "CallOfNoneProcedure", ("stmt", path)
+    prog, path = add_stmt(prog, rng, di, ("call", name, []))
+    return prog, "CallOfNoneProcedure", ("stmt", path)
 
 
 def _signature(prog, name, upto):
@@ -494,12 +523,14 @@ def arguments_type_mismatch(prog, rng):
                 c.append(s)
     if c and rng.random() < 0.8:
         _, path, e, _ = rng.choice(c)
-        return put(prog, path, ("bin", rng.choice(["<", "=", "#"]), e, ("lit", "7"))), "ArgumentsTypeMismatch"
+        return put(prog, path, ("bin", rng.choice(["<", "=", "#"]), e, ("lit", "7"))), "ArgumentsTypeMismatch", \
+            ("expr", path)
     di = ensure_proc(prog, rng)
     callee = rng.choice(["printi", "printc", "clearAll"])
     if callee in locals_of(prog, di):
         return None
-    return add_stmt(prog, rng, di, ("call", callee, [bool_expr(rng)])), "ArgumentsTypeMismatch"
+    prog, path = add_stmt(prog, rng, di, ("call", callee, [bool_expr(rng)]))
+    return prog, "ArgumentsTypeMismatch", ("expr", path + (2, 0))
 
 
 def argument_must_be_a_variable(prog, rng):
@@ -515,12 +546,13 @@ def argument_must_be_a_variable(prog, rng):
     if c and rng.random() < 0.8:
         _, path, e, _ = rng.choice(c)
         new = rng.choice([("par", e), ("bin", "+", e, ("lit", "0")), ("neg", e), ("lit", "5")])
-        return put(prog, path, new), "ArgumentMustBeAVariable"
+        return put(prog, path, new), "ArgumentMustBeAVariable", ("expr", path)
     di = ensure_proc(prog, rng)
     callee = rng.choice(["readi", "readc", "time"])
     if callee in locals_of(prog, di):
         return None
-    return add_stmt(prog, rng, di, ("call", callee, [("lit", "1")])), "ArgumentMustBeAVariable"
+    prog, path = add_stmt(prog, rng, di, ("call", callee, [("lit", "1")]))
+    return prog, "ArgumentMustBeAVariable", ("expr", path + (2, 0))
 
 
 def _callable_calls(prog, min_args):
@@ -537,13 +569,14 @@ def too_few_arguments(prog, rng):
     c = _callable_calls(prog, 1)
     if c and rng.random() < 0.8:
         _, path, s, _ = rng.choice(c)
-        return put(prog, path, ("call", s[1], list(s[2])[:-1])), "TooFewArguments"
+        return put(prog, path, ("call", s[1], list(s[2])[:-1])), "TooFewArguments", ("stmt", path)
     di = ensure_proc(prog, rng)
     callee = rng.choice(["printi", "setPixel", "drawLine"])
     if callee in locals_of(prog, di):
         return None
     n = {"printi": 1, "setPixel": 3, "drawLine": 5}[callee]
-    return add_stmt(prog, rng, di, ("call", callee, [("lit", "1")] * rng.randrange(0, n))), "TooFewArguments"
+    prog, path = add_stmt(prog, rng, di, ("call", callee, [("lit", "1")] * rng.randrange(0, n)))
+    return prog, "TooFewArguments", ("stmt", path)
 
 
 def too_many_arguments(prog, rng):
@@ -551,11 +584,12 @@ def too_many_arguments(prog, rng):
     if c and rng.random() < 0.8:
         _, path, s, _ = rng.choice(c)
         extra = rng.choice([("lit", "1"), bool_expr(rng)])
-        return put(prog, path, ("call", s[1], list(s[2]) + [extra])), "TooManyArguments"
+        return put(prog, path, ("call", s[1], list(s[2]) + [extra])), "TooManyArguments", ("stmt", path)
     di = ensure_proc(prog, rng)
     if "exit" in locals_of(prog, di):
         return None
-    return add_stmt(prog, rng, di, ("call", "exit", [("lit", "1")])), "TooManyArguments"
+    prog, path = add_stmt(prog, rng, di, ("call", "exit", [("lit", "1")]))
+    return prog, "TooManyArguments", ("stmt", path)
 
 
 def _int_expr_sites(prog):
@@ -582,10 +616,11 @@ def _operator(kind, make):
         c = _int_expr_sites(prog)
         if c and rng.random() < 0.85:
             _, path, e, _ = rng.choice(c)
-            return put(prog, path, ("par", make(rng, e))), kind
+            return put(prog, path, ("par", make(rng, e))), kind, ("expr", path + (1,))
         di = ensure_proc(prog, rng)
         prog, v = ensure_int_var(prog, rng, di)
-        return add_stmt(prog, rng, di, ("assign", ("name", v), make(rng, ("lit", "2")))), kind
+        prog, path = add_stmt(prog, rng, di, ("assign", ("name", v), make(rng, ("lit", "2"))))
+        return prog, kind, ("expr", path + (2,))
     return inj
 
 
@@ -603,21 +638,23 @@ def comparison_non_integer(prog, rng):
     new = ("bin", rng.choice(["=", "#", "<", "<=", ">", ">="]), ("par", bool_expr(rng)), ("par", bool_expr(rng)))
     if c and rng.random() < 0.8:
         _, path, _, _ = rng.choice(c)
-        return put(prog, path, new), "ComparisonNonInteger"
+        return put(prog, path, new), "ComparisonNonInteger", ("expr", path)
     di = ensure_proc(prog, rng)
     if rng.random() < 0.5:
         prog, a = ensure_array_var(prog, rng, di)
         new = ("bin", "=", ("var", ("name", a)), ("var", ("name", a)))
-    return add_stmt(prog, rng, di, ("if", new, ("empty",), None)), "ComparisonNonInteger"
+    prog, path = add_stmt(prog, rng, di, ("if", new, ("empty",), None))
+    return prog, "ComparisonNonInteger", ("expr", path + (1,))
 
 
 def undefined_variable(prog, rng):
     c = [s for s in sites(prog) if s[0] == "var" and s[2][0] == "name"]
     if c and rng.random() < 0.85:
         _, path, _, _ = rng.choice(c)
-        return put(prog, path, ("name", fresh(prog, rng))), "UndefinedVariable"
+        return put(prog, path, ("name", fresh(prog, rng))), "UndefinedVariable", ("ident", path)
     di = ensure_proc(prog, rng)
-    return add_stmt(prog, rng, di, ("assign", ("name", fresh(prog, rng)), ("lit", "1"))), "UndefinedVariable"
+    prog, path = add_stmt(prog, rng, di, ("assign", ("name", fresh(prog, rng)), ("lit", "1")))
+    return prog, "UndefinedVariable", ("ident", path + (1,))
 
 
 def not_a_variable(prog, rng):
@@ -627,13 +664,13 @@ def not_a_variable(prog, rng):
     else:
         di = ensure_proc(prog, rng)
         prog, v = ensure_int_var(prog, rng, di)
-        prog = add_stmt(prog, rng, di, ("assign", ("name", v), ("var", ("name", v))))
+        prog, _ = add_stmt(prog, rng, di, ("assign", ("name", v), ("var", ("name", v))))
         c = [s for s in sites(prog) if s[0] == "var" and s[2][0] == "name" and s[3][0] == di]
         _, path, _, _ = rng.choice(c)
     # the global names visible in every procedure body: all declarations (first wins), minus local names
     names = set(["int"]) | set(splgen.BUILTINS) | set(d[1] for d in prog if d[1] != "main" or d[0] == "proc")
     names -= set(locals_of(prog, di))
-    return put(prog, path, ("name", rng.choice(sorted(names)))), "NotAVariable"
+    return put(prog, path, ("name", rng.choice(sorted(names)))), "NotAVariable", ("ident", path)
 
 
 def indexing_non_array(prog, rng):
@@ -644,10 +681,11 @@ def indexing_non_array(prog, rng):
                 c.append(s)
     if c and rng.random() < 0.85:
         _, path, v, _ = rng.choice(c)
-        return put(prog, path, ("index", v, ("lit", str(rng.randrange(0, 4))))), "IndexingNonArray"
+        return put(prog, path, ("index", v, ("lit", str(rng.randrange(0, 4))))), "IndexingNonArray", ("var", path)
     di = ensure_proc(prog, rng)
     prog, v = ensure_int_var(prog, rng, di)
-    return add_stmt(prog, rng, di, ("assign", ("index", ("name", v), ("lit", "0")), ("lit", "1"))), "IndexingNonArray"
+    prog, path = add_stmt(prog, rng, di, ("assign", ("index", ("name", v), ("lit", "0")), ("lit", "1")))
+    return prog, "IndexingNonArray", ("var", path + (1,))
 
 
 def indexing_with_non_integer(prog, rng):
@@ -655,34 +693,101 @@ def indexing_with_non_integer(prog, rng):
     if c and rng.random() < 0.8:
         _, path, v, _ = rng.choice(c)
         new = rng.choice([bool_expr(rng), ("bin", "<", v[2], ("lit", "3")), ("par", bool_expr(rng))])
-        return put(prog, path, ("index", v[1], new)), "IndexingWithNonInteger"
+        return put(prog, path, ("index", v[1], new)), "IndexingWithNonInteger", ("expr", path + (2,))
     di = ensure_proc(prog, rng)
     prog, a = ensure_array_var(prog, rng, di)
     loc = locals_of(prog, di)
     t, v = loc[a][0], ("name", a)
     first = True
+    depth = 0
     while isinstance(t, tuple):
         v = ("index", v, bool_expr(rng) if first else ("lit", "0"))
         first = False
+        depth += 1
         t = t[2]
     if t != "int":
         return None
-    return add_stmt(prog, rng, di, ("assign", v, ("lit", "1"))), "IndexingWithNonInteger"
+    prog, path = add_stmt(prog, rng, di, ("assign", v, ("lit", "1")))
+    # the boolean index is the innermost one
+    return prog, "IndexingWithNonInteger", ("expr", path + (1,) + (1,) * (depth - 1) + (2,))
 
 
 def negated_boolean(prog, rng):
-    """rule probe without a message of its own: unary minus applied to a comparison.  SPL requires an integer
-    operand (the reference compiler reports the arithmetic-operand error)."""
+    """unary minus applied to a comparison, used as a condition.  SPL requires an integer operand (the arithmetic-
+    operand rule) AND, since -e is an integer, the condition rule is violated as well: two diagnostics on the
+    same expression."""
     c = [s for s in sites(prog) if s[0] == "expr" and s[3][1] == "cond"]
     if c and rng.random() < 0.8:
         _, path, e, _ = rng.choice(c)
-        return put(prog, path, ("neg", ("par", e))), "ArithmeticOperatorNonInteger"
+        skind = get(prog, path[:-1])[0]
+        cond_kind = "IfConditionMustBeBoolean" if skind == "if" else "WhileConditionMustBeBoolean"
+        return put(prog, path, ("neg", ("par", e))), "ArithmeticOperatorNonInteger", ("expr", path), \
+            [(cond_kind, ("expr", path))]
     di = ensure_proc(prog, rng)
-    return add_stmt(prog, rng, di, ("if", ("neg", ("par", bool_expr(rng))), ("empty",), None)), \
-        "ArithmeticOperatorNonInteger"
+    prog, path = add_stmt(prog, rng, di, ("if", ("neg", ("par", bool_expr(rng))), ("empty",), None))
+    return prog, "ArithmeticOperatorNonInteger", ("expr", path + (1,)), \
+        [("IfConditionMustBeBoolean", ("expr", path + (1,)))]
 
 
-# probes of SPL rules beyond the 27 one-message-one-rule injectors (reported separately by semtest.py)
+def negated_boolean_operand(prog, rng):
+    """unary minus applied to a comparison where an integer is expected: exactly the arithmetic-operand rule"""
+    c = _int_expr_sites(prog)
+    if c and rng.random() < 0.85:
+        _, path, e, _ = rng.choice(c)
+        return put(prog, path, ("par", ("neg", ("par", bool_expr(rng))))), "ArithmeticOperatorNonInteger", \
+            ("expr", path + (1,))
+    di = ensure_proc(prog, rng)
+    prog, v = ensure_int_var(prog, rng, di)
+    prog, path = add_stmt(prog, rng, di, ("assign", ("name", v), ("neg", ("par", bool_expr(rng)))))
+    return prog, "ArithmeticOperatorNonInteger", ("expr", path + (2,))
+
+
+def _shape(t):
+    """the type expression that spells the structure of a resolved array type"""
+    if t == "int":
+        return ("named", "int")
+    return ("array", t[1], _shape(t[2]))
+
+
+def argument_other_array_type(prog, rng):
+    """name equivalence: an argument whose array type has the same structure as the parameter's type but stems from
+    another declaration (an anonymous array type of a new local variable, or a new type declaration in front)"""
+    c = []
+    for s in sites(prog):
+        if s[0] == "expr" and isinstance(s[3][1], tuple) and s[2][0] == "var" and s[2][1][0] == "name":
+            di, (_, callee, i) = s[3]
+            if callee in locals_of(prog, di):
+                continue
+            sig = _signature(prog, callee, di)
+            if sig and i < len(sig) and isinstance(sig[i][1], tuple):
+                c.append((s, sig[i][1]))
+    if c:
+        (_, path, _, (di, _)), t = rng.choice(c)
+    else:
+        # a type, a procedure taking it, and a call in main
+        tn, pn, an = fresh(prog, rng), fresh(prog, rng, ()), None
+        while pn == tn:
+            pn = fresh(prog, rng)
+        an = "a"
+        prog = [("type", tn, ("array", "4", ("named", "int"))), ("proc", pn, [(True, an, ("named", tn))], [], [])] + list(prog)
+        di = [i for i, d in enumerate(prog) if d[1] == "main" and d[0] == "proc"][0]
+        t = ("arr", "4", "int", tn)
+        x = fresh(prog, rng)
+        prog = insert(prog, (di, 3), len(prog[di][3]), (x, ("named", tn)))
+        prog, spath = add_stmt(prog, rng, di, ("call", pn, [("var", ("name", x))]))
+        path = spath + (2, 0)
+    v = fresh(prog, rng)
+    if rng.random() < 0.5:
+        prog = insert(prog, (di, 3), len(prog[di][3]), (v, _shape(t)))                    # anonymous type
+    else:
+        tn2 = fresh(prog, rng, (v,))
+        prog = insert(prog, (), 0, ("type", tn2, _shape(t)))                              # another declared type
+        di, path = di + 1, (path[0] + 1,) + path[1:]
+        prog = insert(prog, (di, 3), len(prog[di][3]), (v, ("named", tn2)))
+    return put(prog, path, ("var", ("name", v))), "ArgumentsTypeMismatch", ("expr", path)
+
+
+# rule probes beyond the 27 one-message-one-rule injectors (reported separately by semtest.py)
 PROBES = [negated_boolean]
 
 INJECTORS = [
@@ -696,6 +801,20 @@ INJECTORS = [
     indexing_non_array, indexing_with_non_integer,
 ]
 
+# all semantic/declaration single faults, including the two about unary minus and name equivalence of array types
+ALL_INJECTORS = INJECTORS + [negated_boolean, negated_boolean_operand, argument_other_array_type]
+
+
+def inject_full(prog, rng, injector=None):
+    """(prog', [(kind, culprit), ...]) - every diagnostic SPL prescribes for the variant; None when the injector
+    does not apply"""
+    inj = injector or rng.choice(ALL_INJECTORS)
+    r = inj(list(prog), rng)
+    if r is None:
+        return None
+    exps = [(r[1], r[2])] + (list(r[3]) if len(r) > 3 else [])
+    return list(r[0]), exps
+
 
 def inject(prog, rng, injector=None):
     """(prog', kind) for a random (or the given) injector; None when it does not apply"""
@@ -703,5 +822,169 @@ def inject(prog, rng, injector=None):
     r = inj(list(prog), rng)
     if r is None:
         return None
-    p, kind = r
-    return list(p), kind
+    return list(r[0]), r[1]
+
+
+# --------------------------------------------------------------------------------------------
+# token spans of the nodes of a program (indices into splgen.flatten(prog))
+
+def node_spans(prog):
+    """dict: path -> (first token index, last token index + 1) for declarations (di,), type expressions,
+    parameters (di, 2, i), variable declarations (di, 3, i), statements, expressions and variables (paths as in
+    `sites`), plus ('name', di) / ('pname', di, i) / ('vname', di, i) -> index of the declared name's token"""
+    out = {}
+
+    def te(t, path, pos):
+        n = len(splgen.fl_texpr(t))
+        out[path] = (pos, pos + n)
+        if t[0] == "array":
+            te(t[2], path + (2,), pos + 5)
+        return pos + n
+
+    def var(v, path, pos):
+        n = len(splgen.fl_var(v))
+        out[path] = (pos, pos + n)
+        if v[0] == "index":
+            p = var(v[1], path + (1,), pos)
+            ex(v[2], path + (2,), p + 1)
+        return pos + n
+
+    def ex(e, path, pos):
+        n = len(splgen.fl_expr(e))
+        out[path] = (pos, pos + n)
+        k = e[0]
+        if k == "var":
+            var(e[1], path + (1,), pos)
+        elif k in ("neg", "par"):
+            ex(e[1], path + (1,), pos + 1)
+        elif k == "bin":
+            p = ex(e[2], path + (2,), pos)
+            ex(e[3], path + (3,), p + 1)
+        return pos + n
+
+    def st(s, path, pos):
+        n = len(splgen.fl_stmt(s))
+        out[path] = (pos, pos + n)
+        k = s[0]
+        if k == "assign":
+            p = var(s[1], path + (1,), pos)
+            ex(s[2], path + (2,), p + 1)
+        elif k == "call":
+            p = pos + 2
+            for i, a in enumerate(s[2]):
+                if i:
+                    p += 1
+                p = ex(a, path + (2, i), p)
+        elif k == "if":
+            p = ex(s[1], path + (1,), pos + 2)
+            p = st(s[2], path + (2,), p + 1)
+            if s[3] is not None:
+                st(s[3], path + (3,), p + 1)
+        elif k == "while":
+            p = ex(s[1], path + (1,), pos + 2)
+            st(s[2], path + (2,), p + 1)
+        elif k == "block":
+            p = pos + 1
+            for i, x in enumerate(s[1]):
+                p = st(x, path + (1, i), p)
+        return pos + n
+
+    pos = 0
+    for di, d in enumerate(prog):
+        n = len(splgen.fl_decl(d))
+        out[(di,)] = (pos, pos + n)
+        out[("name", di)] = pos + 1
+        if d[0] == "type":
+            te(d[2], (di, 2), pos + 3)
+        else:
+            p = pos + 3
+            for i, (r, pn, t) in enumerate(d[2]):
+                if i:
+                    p += 1
+                start = p
+                if r:
+                    p += 1
+                out[("pname", di, i)] = p
+                p = te(t, (di, 2, i, 2), p + 2)
+                out[(di, 2, i)] = (start, p)
+            p += 2
+            for i, (vn, t) in enumerate(d[3]):
+                start = p
+                out[("vname", di, i)] = p + 1
+                p = te(t, (di, 3, i, 1), p + 3) + 1
+                out[(di, 3, i)] = (start, p)
+            for i, s in enumerate(d[4]):
+                p = st(s, (di, 4, i), p)
+        pos += n
+    return out
+
+
+def culprit_span(prog, culprit):
+    """((first, last + 1), exact) - the culprit's tokens in splgen.flatten(prog); exact = the published range is
+    the bare token (diagnostics about a NAME), otherwise it is the node, which starts at the comments in front of
+    its first token.  None for ('none',)."""
+    sp = node_spans(prog)
+    k = culprit[0]
+    if k == "none":
+        return None
+    if k == "decl_name":
+        i = sp[("name", culprit[1])]
+        return (i, i + 1), True
+    if k == "param_name":
+        i = sp[("pname", culprit[1], culprit[2])]
+        return (i, i + 1), True
+    if k == "var_name":
+        i = sp[("vname", culprit[1], culprit[2])]
+        return (i, i + 1), True
+    if k in ("texpr", "ident"):
+        a, b = sp[culprit[1]]
+        assert b == a + 1, (culprit, a, b)
+        return (a, b), True
+    return sp[culprit[1]], False
+
+
+# --------------------------------------------------------------------------------------------
+# missing-token syntax faults: one token deleted from a well-typed program
+
+def _closing_tokens(prog):
+    """[(token index, kind, message argument)] of the deletable tokens: the `;` that ends an assignment, a call,
+    a variable or a type declaration (-> MissingTrailingSemic) and the `)` that closes the argument list of a
+    call statement or the condition of an if/while (-> MissingClosing `)`)"""
+    sp = node_spans(prog)
+    out = []
+    for path, v in sp.items():
+        if not isinstance(v, tuple) or not path or isinstance(path[0], str):
+            continue
+        a, b = v
+        if len(path) == 1:
+            if prog[path[0]][0] == "type":
+                out.append((b - 1, "MissingTrailingSemic", None))
+            continue
+        if len(path) == 3 and path[1] == 3:
+            out.append((b - 1, "MissingTrailingSemic", None))
+            continue
+        if len(path) >= 3 and path[1] == 4:
+            node = get(prog, path)
+            if not isinstance(node, tuple) or not node or not isinstance(node[0], str):
+                continue
+            if node[0] == "assign" and len(node) == 3 and node[1][0] in ("name", "index"):
+                out.append((b - 1, "MissingTrailingSemic", None))
+            elif node[0] == "call" and isinstance(node[2], list):
+                out.append((b - 1, "MissingTrailingSemic", None))
+                out.append((b - 2, "MissingClosing", ")"))
+            elif node[0] in ("if", "while") and len(node) >= 3 and (path + (1,)) in sp and (path + (2,)) in sp:
+                out.append((sp[path + (1,)][1], "MissingClosing", ")"))
+    return sorted(set(out))
+
+
+def missing_token(prog, rng):
+    """(tokens', kind, argument, index of the token in front of the gap) - the token list of prog with one
+    closing token deleted; the diagnostic is expected at the end of the token in front of the gap"""
+    toks = splgen.flatten(prog)
+    # a `;` in front of an empty statement cannot be missed: the empty statement's `;` takes its place
+    c = [x for x in _closing_tokens(prog) if not (x[1] == "MissingTrailingSemic" and toks[x[0] + 1:x[0] + 2] == [";"])]
+    if not c:
+        return None
+    i, kind, arg = rng.choice(c)
+    assert toks[i] == (";" if kind == "MissingTrailingSemic" else ")"), (toks[i], kind)
+    return toks[:i] + toks[i + 1:], kind, arg, i - 1
